@@ -14,6 +14,7 @@ EXPLANATION = (
     "the reference table, and every such class has a rule in the text styles; (4) one <tspan> is pushed on every cycle of "
     "the line loop. Undecided: anchor coordinates, offsets and line spacing values (numeric) and fidelity of text_string "
     "for all strings beyond the balance argument."
+    " A17: the anchor point for all 13 text-loc locations with text-dx/dy and inward/outward text-offset per touched side agrees as a term with the reference algebra; no character-altering string operation in src/text.rs beyond the reviewed two."
 )
 TRUSTED = ["str::lines yields one item per line"]
 ASSUMPTIONS = []
